@@ -11,6 +11,10 @@ Proved here, for realms / tables / change lists of any size and any pattern:
   all its tables, views and children (the "still present and managed" half);
 * `single_part_match_excludes` – a one-part pattern matching the schema's name removes the schema;
 * `excludeRealm_length_le` – exclusion never adds schemas;
+* `table_excluded_absent`, `schema_excluded_absent`, `excluded_never_added` (over `Lemmas/ExcludeAbsent.lean`)
+  – for ANY realm and ANY accepted pattern list, wherever the pattern stands in the list: no table of the
+  result is matched (with its schema) by a `schema.table` pattern, no schema by a one-part pattern, and
+  every table of the result is a table of the input – the "never reaches the differ/planner" half;
 * `skip_sound`, `skip_complete` – a list built with `AddOrSkip` contains no skipped kind and contains
   every other change, in order.
 
@@ -26,6 +30,7 @@ changes (AddAttr / DropAttr / ModifyAttr) are one abstract kind.
 -/
 import Atlas.Exclude
 import Atlas.Diff
+import Lemmas.ExcludeAbsent
 
 namespace Props.C19
 open Atlas Atlas.Exclude
@@ -143,6 +148,132 @@ theorem excludeRealm_length_le (globs : List (List Text)) :
         have := ih rest hr
         subst h
         cases x <;> simp <;> omega
+
+/-! ### excluded resources are absent from the result (any realm, any pattern list) -/
+
+/-- the table glob of a two-part pattern and whether its selector allows tables. -/
+def tableSel (g : List Text) : Text × Bool := excludeType "table".toList ((g.drop 1).headD [])
+
+/-- for one schema: after ALL patterns were applied, no table is left that a two-part pattern
+`schema.table` (both selectors allowing) matches – whatever patterns come before or after it. -/
+theorem table_absent_schema : ∀ (gs : List (List Text)) (s s' : Schema),
+    excludeSchemaGlobs gs s = .ok (some s') →
+    ∀ g ∈ gs, g.length = 2 → (schemaSel g).2 = true → (tableSel g).2 = true →
+      gmatch (schemaSel g).1 s.name = .ok true →
+      ∀ t' ∈ s'.tables, gmatch (tableSel g).1 t'.name = .ok false := by
+  intro gs
+  induction gs with
+  | nil => intro s s' _ g hg; cases hg
+  | cons g0 gs ih =>
+    intro s s' h g hg hlen hss hts hm t' ht'
+    rcases List.mem_cons.mp hg with rfl | hmem
+    · -- the pattern itself: its step removes every matching table, later steps only remove
+      unfold excludeSchemaGlobs at h
+      rw [if_neg (by omega), if_neg (by simp [hss]), hm] at h
+      simp only [hlen] at h
+      rw [if_neg (by decide)] at h
+      split at h
+      · cases h
+      · rename_i s1 hs1
+        obtain ⟨g1, hg1⟩ : ∃ g1, g.drop 1 = [g1] := by
+          match g, hlen with
+          | [_, b], _ => exact ⟨b, rfl⟩
+        have hsel1 : (excludeType "table".toList g1).2 = true := by
+          have := hts; unfold tableSel at this; rw [hg1] at this; exact this
+        rw [hg1] at hs1
+        have hnone := excludeS_single s g1 s1 hs1 hsel1
+        obtain ⟨_, hsub⟩ := excludeSchemaGlobs_sub gs s1 s' h
+        obtain ⟨t1, ht1, hname⟩ := hsub t' ht'
+        have : (tableSel g).1 = (excludeType "table".toList g1).1 := by unfold tableSel; rw [hg1]; rfl
+        rw [this, hname]
+        exact hnone t1 ht1
+    · -- a later pattern: whatever this step does, the name of the schema stays
+      unfold excludeSchemaGlobs at h
+      split at h
+      · cases h
+      · split at h
+        · exact ih s s' h g hmem hlen hss hts hm t' ht'
+        · split at h
+          · cases h
+          · exact ih s s' h g hmem hlen hss hts hm t' ht'
+          · split at h
+            · cases h
+            · split at h
+              · cases h
+              · rename_i s1 hs1
+                obtain ⟨hn1, _⟩ := excludeS_sub s _ s1 hs1
+                exact ih s1 s' h g hmem hlen hss hts (by rw [hn1]; exact hm) t' ht'
+
+/-- **table_excluded_absent**: for ANY realm and ANY list of patterns that `ExcludeRealm` accepts: no
+schema of the result holds a table that a pattern `schema.table` (selectors allowing) matches together
+with its schema – the excluded tables are absent from what the differ and the planner are given. -/
+theorem table_excluded_absent (globs : List (List Text)) (r r' : Realm) (h : excludeRealm globs r = .ok r')
+    (g : List Text) (hg : g ∈ globs) (hlen : g.length = 2) (hss : (schemaSel g).2 = true) (hts : (tableSel g).2 = true) :
+    ∀ s' ∈ r', gmatch (schemaSel g).1 s'.name = .ok true →
+      ∀ t' ∈ s'.tables, gmatch (tableSel g).1 t'.name = .ok false := by
+  intro s' hs' hm t' ht'
+  obtain ⟨s, _, hsg⟩ := excludeRealm_mem globs r r' h s' hs'
+  obtain ⟨hn, _⟩ := excludeSchemaGlobs_sub globs s s' hsg
+  exact table_absent_schema globs s s' hsg g hg hlen hss hts (by rw [← hn]; exact hm) t' ht'
+
+/-- for one schema: a one-part pattern that matches its name excludes it, wherever the pattern stands. -/
+theorem schema_absent_schema : ∀ (gs : List (List Text)) (s s' : Schema),
+    excludeSchemaGlobs gs s = .ok (some s') →
+    ∀ g ∈ gs, g.length = 1 → (schemaSel g).2 = true → gmatch (schemaSel g).1 s.name ≠ .ok true := by
+  intro gs
+  induction gs with
+  | nil => intro s s' _ g hg; cases hg
+  | cons g0 gs ih =>
+    intro s s' h g hg hlen hss hm
+    rcases List.mem_cons.mp hg with rfl | hmem
+    · rw [single_part_match_excludes s g gs hlen hss hm] at h
+      cases h
+    · unfold excludeSchemaGlobs at h
+      split at h
+      · cases h
+      · split at h
+        · exact ih s s' h g hmem hlen hss hm
+        · split at h
+          · cases h
+          · exact ih s s' h g hmem hlen hss hm
+          · split at h
+            · cases h
+            · split at h
+              · cases h
+              · rename_i s1 hs1
+                obtain ⟨hn1, _⟩ := excludeS_sub s _ s1 hs1
+                exact ih s1 s' h g hmem hlen hss (by rw [hn1]; exact hm)
+
+/-- **schema_excluded_absent**: for ANY realm and pattern list: no schema of the result is matched by a
+one-part pattern that selects schemas. -/
+theorem schema_excluded_absent (globs : List (List Text)) (r r' : Realm) (h : excludeRealm globs r = .ok r')
+    (g : List Text) (hg : g ∈ globs) (hlen : g.length = 1) (hss : (schemaSel g).2 = true) :
+    ∀ s' ∈ r', gmatch (schemaSel g).1 s'.name ≠ .ok true := by
+  intro s' hs' hm
+  obtain ⟨s, _, hsg⟩ := excludeRealm_mem globs r r' h s' hs'
+  obtain ⟨hn, _⟩ := excludeSchemaGlobs_sub globs s s' hsg
+  exact schema_absent_schema globs s s' hsg g hg hlen hss (by rw [← hn]; exact hm)
+
+/-- **excluded_never_added**: every table of the result is (by name) a table of the same-named input
+schema: exclusion never invents or renames a resource. -/
+theorem excluded_never_added (globs : List (List Text)) (r r' : Realm) (h : excludeRealm globs r = .ok r') :
+    ∀ s' ∈ r', ∃ s ∈ r, s'.name = s.name ∧ ∀ t' ∈ s'.tables, ∃ t ∈ s.tables, t'.name = t.name := by
+  intro s' hs'
+  obtain ⟨s, hs, hsg⟩ := excludeRealm_mem globs r r' h s' hs'
+  obtain ⟨hn, ht⟩ := excludeSchemaGlobs_sub globs s s' hsg
+  exact ⟨s, hs, hn, ht⟩
+
+/-- non-vacuity: `main.tmp_*` between two other patterns; the hypotheses of `table_excluded_absent` hold and
+the table `tmp_a` is gone while `users` stays. -/
+def exRealm : Realm := [{ name := "main".toList, tables := [{ name := "users".toList }, { name := "tmp_a".toList }] }]
+def exGlobs : List (List Text) := [["other".toList], ["main".toList, "tmp_*".toList], ["main".toList, "users".toList, "c*".toList]]
+
+example : (excludeRealm exGlobs exRealm).toOption =
+    some [{ name := "main".toList, tables := [{ name := "users".toList }] }] := by decide
+example : (["main".toList, "tmp_*".toList] : List Text) ∈ exGlobs ∧
+    (schemaSel ["main".toList, "tmp_*".toList]).2 = true ∧ (tableSel ["main".toList, "tmp_*".toList]).2 = true ∧
+    (gmatch (schemaSel ["main".toList, "tmp_*".toList]).1 "main".toList).toOption = some true ∧
+    (gmatch (tableSel ["main".toList, "tmp_*".toList]).1 "tmp_a".toList).toOption = some true := by decide
 
 /-! ### skipped change kinds (`DiffOptions.AddOrSkip`) -/
 
